@@ -50,7 +50,14 @@ L3   == <<3, 1, 2>>
 L5   == <<5, 4, 1, 3, 2>>
 L23  == [j \in 1..23 |-> ((j * 7) % 23) + 1]
 L100 == [j \in 1..100 |-> 101 - j]
-GenLists == {L1, L2, L3, L5, L23, L100}
+\* same-size successors of L3 and L5 (one member voted out, one voted in): an election that keeps the size must
+\* still replace the whole index map
+L3b  == <<3, 4, 2>>
+L5b  == <<5, 4, 6, 3, 2>>
+GenVariants == {L3b, L5b}
+GenLists == {L1, L2, L3, L5, L23, L100} \cup GenVariants
+\* identifier of a list in the transition log: its length, +1000 for the same-size variants
+Lid(l) == Len(l) + (IF l \in GenVariants THEN 1000 ELSE 0)
 GenKeys  == 1..102
 
 \* the local clock: first ms, middle and last ms of slot 1000 (far from the epoch)
@@ -101,6 +108,6 @@ GenNext == \/ /\ blk = <<>>
                  \/ Produce
            \/ Done
 GenSpec == Init /\ [][GenNext]_vars
-\* the lists of GenLists have different lengths: the length identifies the list (Elect prints the list itself)
-GenLog == lastAct'.name = "Done" \/ LogTransition(<<iv, now, Len(bps), lib>>, lastAct', <<iv, now', Len(bps'), lib', res'>>)
+\* Lid identifies the list (Elect prints the list itself)
+GenLog == lastAct'.name = "Done" \/ LogTransition(<<iv, now, Lid(bps), lib>>, lastAct', <<iv, now', Lid(bps'), lib', res'>>)
 =============================================================================
